@@ -1,6 +1,7 @@
 package props
 
 import (
+	"encoding/json"
 	"fmt"
 	"math/rand/v2"
 	"runtime"
@@ -97,6 +98,16 @@ func (h *c09hist) build(u updSpec, shared bool) *revocation.Update {
 		upd.SignedAccumulator = h.rev.FreshSAcc(u.b)
 	} else {
 		upd = h.rev.Update(u.a, u.b)
+		if u.b > u.a && (u.a*7+u.b*3)%3 == 0 {
+			// the same message assembled by the holder's client from two downloads: the newer part [k..b] as an update, the older
+			// events [a..k'] as a list carrying its product (k' = k: the pieces overlap in one event; k' = k-1: adjacent)
+			k := u.a + 1 + (u.a+u.b)%(u.b-u.a)
+			kk := k - (u.a+2*u.b)%2
+			if asm := h.assemble(u.a, kk, k, u.b); asm != nil {
+				upd = asm
+				asmCount.Add(1)
+			}
+		}
 	}
 	if u.retime != 0 {
 		s, err := h.rev.Resign(u.b, h.rev.Accs[u.b].Time+u.retime)
@@ -109,6 +120,36 @@ func (h *c09hist) build(u updSpec, shared bool) *revocation.Update {
 		h.shared[u] = upd
 	}
 	return upd
+}
+
+var asmCount atomic.Int64
+
+// assemble returns the update [k..b] with the event list [a..kk] (product computed) prepended, or nil if the library refuses.
+func (h *c09hist) assemble(a, kk, k, b int) *revocation.Update {
+	if kk < a || k > b || kk >= b {
+		return nil
+	}
+	newer := h.rev.Update(k, b)
+	var older []*revocation.Event
+	for i := a; i <= kk; i++ {
+		older = append(older, h.rev.Events[i])
+	}
+	jb, err := json.Marshal(revocation.NewEventList(older...))
+	if err != nil {
+		return nil
+	}
+	el := &revocation.EventList{ComputeProduct: true}
+	if json.Unmarshal(jb, el) != nil {
+		return nil
+	}
+	var perr error
+	if pv, _ := mon.Try(func() { perr = newer.Prepend(el) }); pv != nil || perr != nil {
+		return nil
+	}
+	if len(newer.Events) != b-a+1 {
+		return nil
+	}
+	return newer
 }
 
 func cloneSAccKeep(s *revocation.SignedAccumulator) *revocation.SignedAccumulator {
@@ -301,6 +342,8 @@ func runC09(r *mon.Run) {
 		}
 	})
 	r.Set("histories_with_exhaustive_sequences", exhaustiveDone.Load())
+	r.Set("update_messages_assembled_by_prepend", asmCount.Load())
+	r.Floor("update messages assembled by Prepend from overlapping pieces", 20, func() int64 { return asmCount.Load() })
 	r.Set("exhaustive_scope", "for the listed histories: every witness x every sequence of <=depth update messages over all windows; which witnesses are revoked when is seeded")
 	r.Exhaustive(exhaustiveDone.Load() > 0)
 	r.FloorFam("step-advance", 1000)
